@@ -281,6 +281,14 @@ class ISD(model.Document):
 
       content_interval = [None, 0]
 
+      # the default region, which is used when the document declares no region, is always active: it shows
+      # a background whenever the initial value of tts:backgroundColor set by the document is not transparent
+
+      if len(doc_regions) == 0:
+        initial_bg_color = doc.get_initial_value(styles.StyleProperties.BackgroundColor)
+        if initial_bg_color is not None and initial_bg_color.components[3] != 0:
+          content_interval = [Fraction(0), None]
+
       # add significant times for regions
 
       for region in cached_doc.iter_regions():
